@@ -186,7 +186,7 @@ func c07(p *Prog, r *Report) {
 		nS++
 		found := false
 		var near []string
-		for _, a := range rp.Facts {
+		for _, a := range p.expandFacts(s, rp.Facts, 0) {
 			if a.Kind != Truth || !a.Pol {
 				continue
 			}
@@ -198,7 +198,7 @@ func c07(p *Prog, r *Report) {
 			if !ok || !lk.CommaOk {
 				continue
 			}
-			lt := s.Of(lk).String()
+			lt := a.S.Of(lk).String()
 			if glob(lookupPat, lt) {
 				found = true
 				lookupTerm = lt
